@@ -367,6 +367,12 @@ class LoaderCheck:
         for idx in range(spec["start"], spec["start"] + spec["count"]):
             over = {"release_policies": ["closed_loop"], "max_invocations": 5, "p_enforce": 0.6, "p_drop": 0.5,
                     "deadline_variances": [(0, 0), (0, 20), (10, 50), (50, 200)]}
+            rep = 1
+            if idx % 3 == 2:
+                # every application replicated (--replication_factor): the replicas are separate closed loops
+                rep = 2
+                over["flags"] = {"replication_factor": 2}
+                over["max_invocations"] = 4
             world = worldgen.gen_world(spec["seed"], idx, "greedy" if idx % 4 else "planner", **over)
             wd = os.path.join(workdir, f"w{idx}")
             ctx = e2e.run_world(world, wd, opts={"csvreader": False})
@@ -378,12 +384,15 @@ class LoaderCheck:
             inst = {}
             for r in ctx.tasks.values():
                 inst.setdefault(r["graph"], {})[r["name"]] = r
-            for g in world["workload"]["graphs"]:
+            if rep > 1:
+                self.bump("closed_loop_runs_replicated")
+            for g, gname_rep in [(g, (g["name"] if rep == 1 else f"{g['name']}_{i}")) for g in world["workload"]["graphs"]
+                                 for i in range(1, rep + 1)]:
                 gd = ctx.graph_desc[g["name"]]
                 sinks = [n for n, cs in gd["children"].items() if not cs]
                 ivs = []
                 for gname, recs in inst.items():
-                    if gname.split("@")[0] != g["name"]:
+                    if gname.split("@")[0] != gname_rep:
                         continue
                     rel = min(r["graph_release"] for r in recs.values() if r["graph_release"] >= 0)
                     fins = [recs[s]["finishes"][-1] if recs[s]["finishes"] else None for s in sinks]
@@ -399,7 +408,7 @@ class LoaderCheck:
                 conc, n = g["concurrency"], g["invocations"]
                 self.bump("closed_loop_graphs")
                 if total > n:
-                    self.bad("closed_loop_too_many_invocations", f"{g['name']}: {total} invocations instantiated, declared {n}; {sorted(ivs)}", idx)
+                    self.bad("closed_loop_too_many_invocations", f"{gname_rep}: {total} invocations instantiated, declared {n}; {sorted(ivs)}", idx)
                 # max concurrently in flight: a graph ending at t and its successor released at t+1 do not overlap
                 pts = sorted({iv[0] for iv in ivs})
                 worst = 0
@@ -409,13 +418,13 @@ class LoaderCheck:
                     if len(live) > conc:
                         multi = any(sum(1 for r in inst[iv[2]].values() if r["state"] == "CANCELLED") >= 2 for iv in ivs)
                         self.bad("closed_loop_concurrency_exceeded",
-                                 f"{g['name']} (concurrency {conc}, N {n}) at t={t}: {len(live)} in flight {[(iv[2], iv[0], iv[1]) for iv in live]}",
+                                 f"{gname_rep} (concurrency {conc}, N {n}) at t={t}: {len(live)} in flight {[(iv[2], iv[0], iv[1]) for iv in live]}",
                                  idx, after_multi_task_cancellation=multi)
                         break
                 if ctx.end_time < world["flags"]["loop_timeout"] and total < n and all(iv[1] is not None for iv in ivs):
-                    self.bad("closed_loop_too_few_invocations", f"{g['name']}: run ended with {total} of {n} invocations, all finished/cancelled", idx)
+                    self.bad("closed_loop_too_few_invocations", f"{gname_rep}: run ended with {total} of {n} invocations, all finished/cancelled", idx)
                 if total > conc:
-                    self.nt.add(world["hash"] + g["name"])
+                    self.nt.add(world["hash"] + gname_rep)
         return
 
 
